@@ -56,8 +56,17 @@ def run_case(c, pid):
     variables = {k: ({} if k == c['empty_col'] else v) for k, v in variables.items()}
     if c.get('frozen'):
       variables = freeze(variables)
+  if c.get('ordered'):
+    # the caller keeps its variables in dict SUBCLASSES (OrderedDict at every level): still the caller's own objects
+    import collections
+
+    def to_ordered(v):
+      return collections.OrderedDict((k, to_ordered(x_)) for k, x_ in v.items()) if isinstance(v, dict) else v
+    if not isinstance(variables, flax.core.FrozenDict):
+      variables = to_ordered(variables)
   out['apply_vars_in'] = L.canon_vars(variables)
   mutable = L.dec_filter(c['mutable'])
+  mutable_before = copy.deepcopy(mutable) if isinstance(mutable, list) else None
   rngs = L.rng_dict(c['streams'])
   before = snapshot(variables, m, rngs, x)
   runs = []
@@ -91,6 +100,11 @@ def run_case(c, pid):
     rc = L.run_apply(m, variables, x, c['streams'], mutable, capture_intermediates=True) if mutable is not False else {'out': base, 'vars': runs[0].get('vars')}
     strip = lambda r: {k: v for k, v in (r.get('vars') or {}).items() if k != 'intermediates'}
     out['capture_native'] = {'out_same': rc.get('out') == base, 'err': rc.get('err'), 'state_same': strip(rc) == strip(runs[0])}
+    # ... and the call after a capturing call, with the very same `mutable` object, is the base run again
+    again = L.run_apply(m, variables, x, c['streams'], mutable)
+    out['after_capture_equal'] = again == runs[0]
+  out['mutable_untouched'] = mutable_before is None or mutable == mutable_before
+  out['inputs_untouched_at_end'] = snapshot(variables, m, rngs, x) == before
   return out
 
 
